@@ -537,57 +537,94 @@ def r4(ctx):
 
 @rule("C07.R5", "clustering: matrix[i][j] = distance(setmap, platforms[i], platforms[j]) over one sorted platform list used for rows, columns and labels")
 def r5(ctx):
+    """table specification over what clustering() prints and plots: with P = sorted(extract_platforms(setmap)) and
+    M = [[distance(setmap, a, b) for b in P] for a in P]: the table's rows are (P[i], M[i]) for i over P, its headers are
+    P, the dendrogram is built from squareform(M) and labelled with P.  Locals, helpers and statement order are free."""
+    from ..spec import call_args, split_top, tab, vt
+
     repo = ctx.repo
     f = repo.func("report", "clustering")
     sm = f.params[1]
-    env = {}
-    for s in walk_no_nested(f.node):
-        if isinstance(s, ast.Assign) and isinstance(s.targets[0], ast.Name):
-            env[s.targets[0].id] = s.value
-    pl = env.get("platforms")
-    ctx.soft(pl is not None and u(pl) == f"sorted(extract_platforms({sm}))", "report:clustering:platforms-sorted", f"platform list must be sorted(extract_platforms({sm})): {u(pl) if pl is not None else None}", f.loc())
-    m = env.get("matrix")
-    key = "report:clustering:matrix-layout"
-    if m is None:
-        ctx.violation(key, "`matrix` not found", f.loc())
-    elif isinstance(m, ast.ListComp) and isinstance(m.elt, ast.ListComp):
-        outer, inner = m.generators[0], m.elt.generators[0]
-        el = m.elt.elt
-        ok = (
-            len(m.generators) == 1 and len(m.elt.generators) == 1 and u(outer.iter) == "platforms" and u(inner.iter) == "platforms"
-            and not outer.ifs and not inner.ifs and isinstance(el, ast.Call) and u(el.func) == "distance"
+    P = f"sorted(extract_platforms({sm}))"
+
+    def find_call(text, name):
+        i = text.find(name + "(")
+        if i < 0:
+            return None
+        depth = 0
+        for j in range(i + len(name), len(text)):
+            depth += text[j] in "([{"
+            depth -= text[j] in ")]}"
+            if depth == 0:
+                return text[i : j + 1]
+        return None
+
+    def matrix_ok(mtext):
+        """M as a nested comprehension over P x P of distance(sm, a, b)"""
+        try:
+            m = ast.parse(mtext.replace("comp:", ""), mode="eval").body
+        except SyntaxError:
+            return None
+        if not (isinstance(m, ast.ListComp) and isinstance(m.elt, ast.ListComp) and len(m.generators) == 1 and len(m.elt.generators) == 1):
+            return None
+        outer, inner, el = m.generators[0], m.elt.generators[0], m.elt.elt
+        return (
+            u(outer.iter) == P and u(inner.iter) == P and not outer.ifs and not inner.ifs and isinstance(el, ast.Call) and u(el.func) == "distance"
             and [u(a) for a in el.args] in ([sm, u(outer.target), u(inner.target)], [sm, u(inner.target), u(outer.target)])
         )
-        ctx.check(ok, key, f"matrix must be [[distance({sm}, p1, p2) for p2 in platforms] for p1 in platforms]: {u(m)[:120]}", f.loc(m))
-    elif isinstance(m, ast.Call) and u(m.func).endswith("squareform"):
-        # condensed form: scipy expects row-major upper triangle: for i in range(n) for j in range(i+1, n)
-        c = m.args[0]
-        c = env.get(c.id, c) if isinstance(c, ast.Name) else c
-        ok = False
-        why = u(c)[:120]
-        if isinstance(c, ast.ListComp) and len(c.generators) == 2:
-            g1, g2 = c.generators
-            a, b = u(g1.target), u(g2.target)
-            el = c.elt
-            args = [u(x) for x in el.args] if isinstance(el, ast.Call) and u(el.func) == "distance" else []
-            row_major = u(g1.iter) == "range(len(platforms))" and u(g2.iter) in (f"range({a} + 1, len(platforms))",)
-            pair = args[1:] in ([f"platforms[{a}]", f"platforms[{b}]"], [f"platforms[{b}]", f"platforms[{a}]"])
-            ok = row_major and pair and args[:1] == [sm]
-            if not row_major:
-                why = f"condensed distances are generated by `for {a} in {u(g1.iter)} for {b} in {u(g2.iter)}`; squareform() expects the row-major upper triangle (for i in range(n) for j in range(i+1, n)): cells of the printed matrix are permuted for 4 or more platforms"
-        ctx.check(ok, key, why, f.loc(m))
-    else:
-        raise AnalysisError(f"clustering: matrix construction not understood: {u(m)[:100]}")
-    # labels
-    lm = env.get("labelled_matrix")
-    ok = lm is not None and "enumerate(platforms)" in u(lm) and "matrix[row]" in u(lm)
-    ctx.soft(ok, "report:clustering:row-labels", "row i of the printed table must be labelled platforms[i] and show matrix[i]", f.loc())
-    tab = [c for c in f.calls() if callee(c) == "tabulate"]
-    ok = len(tab) == 1 and u(tab[0].args[0]) == "labelled_matrix" and {k.arg: u(k.value) for k in tab[0].keywords}.get("headers") == "platforms"
-    ctx.soft(ok, "report:clustering:column-labels", "columns must be headed by the same platform list", f.loc())
-    dg = [c for c in f.calls() if u(c.func).endswith("dendrogram")]
-    ok = len(dg) == 1 and {k.arg: u(k.value) for k in dg[0].keywords}.get("labels") == "platforms"
-    ctx.soft(ok, "report:clustering:dendrogram-labels", "dendrogram leaves must be labelled with the same platform list", f.loc())
+
+    n = 0
+    for p in tab(f, unroll=1):
+        texts = [vt(x) for e in p.effects if e[0] in ("call", "aug", "store") for x in e[1:] if not isinstance(x, tuple)] + [vt(x[1]) for e in p.effects if e[0] == "call" for x in e[2:] if isinstance(x, tuple) and len(x) == 2]
+        whole = "\n".join(texts)
+        tb = find_call(whole, "tabulate")
+        if tb is None:
+            continue
+        n += 1
+        ca = call_args(tb, "tabulate")
+        if not ca or not ca[0]:
+            raise AnalysisError(f"clustering: tabulate(...) call not understood: {tb[:100]}")
+        rows, kw = ca[0][0], ca[1]
+        ctx.check(kw.get("headers") == P, "report:clustering:column-labels", f"the columns must be headed by the sorted platform list `{P}`: headers={kw.get('headers', '')[:80]}", f.loc())
+        # rows: [[label] + [fmt(x) for x in M[i]] for i, label in enumerate(P)]
+        try:
+            r = ast.parse(rows.replace("comp:", ""), mode="eval").body
+        except SyntaxError:
+            raise AnalysisError(f"clustering: rows of the distance table do not parse: {rows[:100]}")
+        if not (isinstance(r, ast.ListComp) and len(r.generators) == 1):
+            raise AnalysisError(f"clustering: rows of the distance table not recognised: {rows[:100]}")
+        g = r.generators[0]
+        it = u(g.iter)
+        subs = [x for x in ast.walk(r.elt) if isinstance(x, ast.Subscript) and isinstance(x.value, (ast.ListComp,))]
+        if it == f"enumerate({P})" and isinstance(g.target, ast.Tuple) and len(g.target.elts) == 2 and len(subs) == 1:
+            idx, lab = u(g.target.elts[0]), u(g.target.elts[1])
+            label_ok = isinstance(r.elt, ast.BinOp) and isinstance(r.elt.left, ast.List) and [u(x) for x in r.elt.left.elts] == [lab]
+            ctx.check(label_ok and u(subs[0].slice) == idx, "report:clustering:row-labels", f"row i of the printed table must be labelled P[i] and show M[i]: `{u(r.elt)[:100]}`", f.loc())
+            mo = matrix_ok(u(subs[0].value))
+        elif it in (f"zip({P}, {x})" for x in [u(s_.value) for s_ in subs] + [u(a) for a in getattr(g.iter, 'args', [])[1:]]):
+            mo = matrix_ok(u(g.iter.args[1]))
+            ctx.ok("report:clustering:row-labels")
+        else:
+            raise AnalysisError(f"clustering: row labelling not recognised: for {u(g.target)} in {it[:80]}")
+        if mo is None:
+            raise AnalysisError("clustering: matrix construction not understood")
+        ctx.check(mo, "report:clustering:matrix-layout", f"the matrix must be [[distance({sm}, a, b) for b in P] for a in P] with P = `{P}` (one list for rows and columns)", f.loc())
+        ctx.check(P in rows and "extract_platforms" in rows, "report:clustering:platforms-sorted", f"the platform list must be `{P}`", f.loc())
+        dg = next((e for e in p.effects if e[0] == "call" and str(e[1]).endswith("dendrogram")), None)
+        if dg is None:
+            raise AnalysisError("clustering: dendrogram call not found")
+        lab = next((vt(x[1]) for x in dg[2:] if isinstance(x, tuple) and x[0] == "labels"), None)
+        ctx.check(lab == P, "report:clustering:dendrogram-labels", f"the dendrogram leaves must be labelled with the same sorted platform list: labels={str(lab)[:80]}", f.loc())
+        sq = find_call(vt(dg[2]), "squareform")
+        if sq is None:
+            raise AnalysisError(f"clustering: squareform(...) not found in the linkage argument: {vt(dg[2])[:100]}")
+        sqa = call_args(sq, "squareform")
+        mo2 = matrix_ok(sqa[0][0]) if sqa and sqa[0] else None
+        if mo2 is None:
+            raise AnalysisError(f"clustering: condensed distances not understood: {sq[:120]}")
+        ctx.check(mo2, "report:clustering:matrix-layout", "the dendrogram must be built from the same distance matrix as the table", f.loc())
+    if not n:
+        raise AnalysisError("clustering: no path prints the distance table")
     ctx.floor(5)
 
 
